@@ -410,14 +410,15 @@ func stringToPoint(point *edwards25519.ExtendedGroupElement, s [32]byte) bool {
 }
 
 func isCanonical(s [32]byte) byte {
-	c := (s[31] & 0x7f) ^ 0x7f
+	// the borrow of c-1 and of 0xec-s[0] must survive the shift, so the arithmetic is done in 32 bits
+	c := uint32((s[31] & 0x7f) ^ 0x7f)
 	for i := 30; i > 0; i-- {
-		c |= s[i] ^ 0xff
+		c |= uint32(s[i] ^ 0xff)
 	}
 	c = (c - 1) >> 8
-	d := (0xed - 1 - s[0]) >> 8
+	d := (0xed - 1 - uint32(s[0])) >> 8
 
-	return 1 - (c & d & 1)
+	return 1 - byte(c&d&1)
 }
 
 func tryZeroPadding(pi VRFProve) VRFProve {
